@@ -101,23 +101,27 @@ Theorem source_read_data junk s n u wc :
      rc = E_NONE /\ cnt = (if wc then Some k else None) /\
      source_rest s' = drop k (source_rest s) /\
      r_in s' = r_in s + k /\ r_out s' = r_out s + k) /\
-  ((wc = false /\ k < n /\ r_eof s = false) -> rc = E_FATAL /\ cnt = None /\ r_in s' = r_in s /\ r_out s' = r_out s).
+  ((wc = false /\ k < n) -> rc = E_FATAL /\ cnt = None /\ r_in s' = r_in s /\ r_out s' = r_out s).
 Proof.
   intros Hw He Hn Hu. unfold next_k. simpl.
   unfold source_read.
   destruct ((n =? 0) || r_eof s) eqn:Hq.
-  - (* nothing asked or the end is registered: a successful no-op *)
+  - (* nothing asked or the end is registered: a no-op; it succeeds unless an exact request
+       (no count pointer) of n > 0 bytes is made, which is FATAL (repair 103c295) *)
     assert (Hk : Z.min n (len (source_rest s)) = 0).
     { apply orb_true_iff in Hq. destruct Hq as [Hq|Hq]; [pose proof (len_nonneg (source_rest s)); lia|].
       rewrite (He Hq). unfold len; simpl; lia. }
-    rewrite Hk. rewrite take_nonpos by lia. rewrite drop_nonpos by lia. simpl.
-    split; [reflexivity|]. split; [assumption|]. split; [assumption|]. split; [reflexivity|].
-    split. { unfold mirror_plus. destruct (r_mir s); [rewrite app_nil_r|]; auto. }
-    split.
+    assert (Hend : 0 < n -> source_rest s = []).
     { intros Hlt. apply orb_true_iff in Hq. destruct Hq as [Hq|Hq]; [lia|]. exact (He Hq). }
-    split.
-    { intros _. rewrite drop_nonpos by lia. repeat split; try lia. }
-    intros (_ & Hlt & Hf). apply orb_true_iff in Hq. destruct Hq as [Hq|Hq]; [lia|congruence].
+    rewrite Hk. rewrite take_nonpos by lia. rewrite drop_nonpos by lia.
+    assert (Hmp : mirror_plus (r_mir s) [] (r_mir s)).
+    { unfold mirror_plus. destruct (r_mir s); [rewrite app_nil_r|]; auto. }
+    destruct wc; [|destruct (0 <? n) eqn:Hpos]; cbn [app];
+      (split; [reflexivity|]; split; [assumption|]; split; [assumption|]; split; [reflexivity|];
+       split; [assumption|]; split; [assumption|]); rewrite ?drop_nonpos by lia.
+    + split; [intros _; repeat split; lia|]. intros (Hwc & _). discriminate.
+    + apply Z.ltb_lt in Hpos. split; [intros [H|H]; [discriminate|lia]|]. intros _. repeat split; reflexivity.
+    + apply Z.ltb_ge in Hpos. split; [intros _; repeat split; lia|]. intros (_ & Hlt). lia.
   - apply orb_false_iff in Hq. destruct Hq as [Hn0 Heof]. apply Z.eqb_neq in Hn0.
     destruct (r_dev s) as [a | nm f pos] eqn:Hd.
     + (* array *)
@@ -164,7 +168,7 @@ Proof.
            split; [intros; congruence|]. split; [reflexivity|]. split; [exact I|].
            split. { intros Hlt. rewrite Hrest'. apply drop_all. subst k; lia. }
            split. { intros _. rewrite Hrest'. unfold source_rest, source_stored, source_pos. rewrite Hd. repeat split; reflexivity. }
-           intros (Hwc & Hlt & _). subst wc. simpl in Hshort. apply Z.ltb_ge in Hshort. lia.
+           intros (Hwc & Hlt). subst wc. simpl in Hshort. apply Z.ltb_ge in Hshort. lia.
     + (* file *)
       pose proof (rest_len_file s nm f pos Hd Hw) as Hrl.
       destruct Hw as (Hmw & Hw). rewrite Hd in Hw.
@@ -230,7 +234,7 @@ Lemma source_read_buffer_nodata junk s a n u wc flt :
   let '(s', rc, cnt, _) := source_read junk s n (Some u) wc flt in (s', rc, cnt, None).
 Proof.
   intros Hd. unfold source_read. rewrite Hd.
-  destruct ((n =? 0) || r_eof s); [reflexivity|].
+  destruct ((n =? 0) || r_eof s); [destruct wc; [|destruct (0 <? n)]; reflexivity|].
   destruct (if a_cnt a * a_esz a <? r_bb s then 0 else a_cnt a * a_esz a - r_bb s) eqn:E; simpl;
     unfold read_finish; simpl;
     repeat match goal with |- context [if ?c then _ else _] => destruct c; simpl end; reflexivity.
@@ -246,7 +250,7 @@ Theorem source_skip_buffer junk s a n wc :
      rc = E_NONE /\ cnt = (if wc then Some k else None) /\
      source_rest s' = drop k (source_rest s) /\
      r_in s' = r_in s + k /\ r_out s' = r_out s + k) /\
-  ((wc = false /\ k < n /\ r_eof s = false) -> rc = E_FATAL /\ cnt = None /\ r_in s' = r_in s /\ r_out s' = r_out s).
+  ((wc = false /\ k < n) -> rc = E_FATAL /\ cnt = None /\ r_in s' = r_in s /\ r_out s' = r_out s).
 Proof.
   intros Hd Hw He Hn.
   pose proof (source_read_data junk s n (repeat 0 (Z.to_nat n)) wc Hw He Hn ltac:(rewrite len_repeat; lia)) as H.
@@ -255,24 +259,28 @@ Proof.
   destruct H as (_ & H). split; [reflexivity|]. tauto.
 Qed.
 
-(* files: a seek; the end is not examined ("check for potential end of file next time") *)
+(* files: a seek; the end is not examined ("check for potential end of file next time").  Once the
+   end has been registered by an earlier read the call is a no-op: a counted skip reports 0, an
+   exact skip (no count pointer) of n > 0 bytes is FATAL (repair 103c295). *)
 Theorem source_skip_file junk s nm f pos n wc :
   r_dev s = RFile nm f pos -> source_wf s -> eof_ok s -> 0 <= n ->
   let '(s', rc, cnt, data') := source_read junk s n None wc NoFault in
   data' = None /\ source_wf s' /\ eof_ok s' /\ source_stored s' = source_stored s /\ r_mir s' = r_mir s /\
-  rc = E_NONE /\
+  rc = (if r_eof s && negb wc && (0 <? n) then E_FATAL else E_NONE) /\
   let k := if r_eof s then 0 else n in
   cnt = (if wc then Some k else None) /\
   source_rest s' = drop k (source_rest s) /\ source_pos s' = source_pos s + k /\
-  r_in s' = r_in s + k /\ r_out s' = r_out s + k.
+  r_in s' = r_in s + k /\ r_out s' = r_out s + k /\
+  (r_eof s = true -> s' = s).
 Proof.
   intros Hd Hw He Hn. unfold source_read. rewrite Hd.
   destruct (n =? 0) eqn:Hn0; simpl orb.
-  - apply Z.eqb_eq in Hn0. subst n. simpl.
+  - apply Z.eqb_eq in Hn0. subst n. rewrite andb_false_r.
     replace (if r_eof s then 0 else 0) with 0 by (destruct (r_eof s); reflexivity).
-    rewrite drop_nonpos by lia. crush.
-  - apply Z.eqb_neq in Hn0. destruct (r_eof s) eqn:Heof.
-    + simpl. rewrite drop_nonpos by lia. crush.
+    rewrite drop_nonpos by lia. destruct wc; simpl; crush.
+  - apply Z.eqb_neq in Hn0. assert (Hpos : (0 <? n) = true) by (apply Z.ltb_lt; lia). rewrite Hpos.
+    destruct (r_eof s) eqn:Heof.
+    + rewrite drop_nonpos by lia. destruct wc; simpl; crush.
     + unfold read_finish. cbv iota. rewrite Z.ltb_irrefl, andb_false_r.
       destruct Hw as (Hmw & Hw). rewrite Hd in Hw.
       unfold source_wf, eof_ok, source_rest, source_stored, source_pos; simpl; rewrite Hd.
@@ -282,28 +290,42 @@ Proof.
 Qed.
 
 (* ---- alignment -------------------------------------------------------------------------------- *)
+(* the padding is skipped; once the end has been registered, an align that needs padding is FATAL
+   and leaves the source as it is (sc_io_source_align is an exact skip: repair 103c295) *)
 Theorem source_align_file junk s nm f pos al :
-  r_dev s = RFile nm f pos -> source_wf s -> eof_ok s -> r_eof s = false -> 0 < al -> 0 <= r_out s ->
+  r_dev s = RFile nm f pos -> source_wf s -> eof_ok s -> 0 < al -> 0 <= r_out s ->
   let pad := (al - r_out s mod al) mod al in
   let '(s', rc) := source_align junk s al NoFault in
-  rc = E_NONE /\ 0 <= pad < al /\ source_pos s' = source_pos s + pad /\
-  source_rest s' = drop pad (source_rest s) /\
-  r_out s' = r_out s + pad /\ r_in s' = r_in s + pad /\ r_out s' mod al = 0 /\
+  0 <= pad < al /\
+  ((r_eof s = false \/ pad = 0) ->
+     rc = E_NONE /\ source_pos s' = source_pos s + pad /\
+     source_rest s' = drop pad (source_rest s) /\
+     r_out s' = r_out s + pad /\ r_in s' = r_in s + pad /\ r_out s' mod al = 0) /\
+  ((r_eof s = true /\ 0 < pad) -> rc = E_FATAL /\ s' = s) /\
   source_wf s' /\ eof_ok s' /\ r_mir s' = r_mir s.
 Proof.
-  intros Hd Hw He Heof Hal Hout. simpl. unfold source_align. fold (align_fill (r_out s) al).
+  intros Hd Hw He Hal Hout. simpl. unfold source_align. fold (align_fill (r_out s) al).
   pose proof (align_fill_range (r_out s) al Hal) as Hr.
   pose proof (source_skip_file junk s nm f pos (align_fill (r_out s) al) false Hd Hw He ltac:(lia)) as H.
   destruct (source_read junk s (align_fill (r_out s) al) None false NoFault) as [[[s' rc] cnt] data'].
-  rewrite Heof in H. simpl in H.
-  destruct H as (_ & Hw' & He' & _ & Hm & Hrc & _ & Hrest & Hpos & Hi & Ho).
-  split; [assumption|]. split; [assumption|]. split; [assumption|]. split; [assumption|].
-  split; [assumption|]. split; [assumption|].
-  split; [rewrite Ho; apply align_fill_aligns; assumption|]. auto.
+  simpl in H.
+  destruct H as (_ & Hw' & He' & _ & Hm & Hrc & _ & Hrest & Hpos & Hi & Ho & Hsame).
+  split; [assumption|]. split; [|split; [|auto]].
+  - intros Hg.
+    assert (Hk : (if r_eof s then 0 else align_fill (r_out s) al) = align_fill (r_out s) al).
+    { destruct Hg as [Hg|Hg]; [rewrite Hg; reflexivity|rewrite Hg; destruct (r_eof s); reflexivity]. }
+    rewrite Hk in *.
+    assert (Hrc' : rc = E_NONE).
+    { rewrite Hrc. destruct Hg as [Hg|Hg]; [rewrite Hg; reflexivity|].
+      rewrite Hg. simpl. rewrite andb_false_r. reflexivity. }
+    splits; try assumption. rewrite Ho. apply align_fill_aligns; assumption.
+  - intros (Heof & Hp). split; [|exact (Hsame Heof)].
+    rewrite Hrc, Heof. replace (0 <? align_fill (r_out s) al) with true by (symmetry; apply Z.ltb_lt; assumption).
+    reflexivity.
 Qed.
 
 Theorem source_align_buffer junk s a al :
-  r_dev s = RBuf a -> source_wf s -> eof_ok s -> r_eof s = false -> 0 < al -> 0 <= r_out s ->
+  r_dev s = RBuf a -> source_wf s -> eof_ok s -> 0 < al -> 0 <= r_out s ->
   let pad := (al - r_out s mod al) mod al in
   let '(s', rc) := source_align junk s al NoFault in
   0 <= pad < al /\
@@ -313,7 +335,7 @@ Theorem source_align_buffer junk s a al :
   (len (source_rest s) < pad -> rc = E_FATAL /\ r_out s' = r_out s /\ r_in s' = r_in s) /\
   source_wf s' /\ eof_ok s'.
 Proof.
-  intros Hd Hw He Heof Hal Hout. simpl. unfold source_align. fold (align_fill (r_out s) al).
+  intros Hd Hw He Hal Hout. simpl. unfold source_align. fold (align_fill (r_out s) al).
   pose proof (align_fill_range (r_out s) al Hal) as Hr.
   pose proof (source_skip_buffer junk s a (align_fill (r_out s) al) false Hd Hw He ltac:(lia)) as H.
   unfold next_k in H. simpl in H.
@@ -326,7 +348,7 @@ Proof.
   - split; [|split; assumption].
     intros Hlt.
     assert (Hm : Z.min (align_fill (r_out s) al) (len (source_rest s)) < align_fill (r_out s) al) by lia.
-    destruct (Hbad (conj eq_refl (conj Hm Heof))) as (Hrc & _ & Hi & Ho). auto.
+    destruct (Hbad (conj eq_refl Hm)) as (Hrc & _ & Hi & Ho). auto.
 Qed.
 
 (* ---- completion -------------------------------------------------------------------------------- *)
@@ -451,9 +473,10 @@ Proof.
 Qed.
 
 (* ---- exact reads: bytes_out == NULL ------------------------------------------------------------- *)
-(* the guarded statement: holds as long as the end has not been registered by an earlier call *)
+(* the documented statement ("Returns an error if bytes_out is NULL and less than bytes_avail are
+   read"), for every source state, including after the end has been registered by an earlier call *)
 Theorem source_read_exact junk s n u :
-  source_wf s -> eof_ok s -> 0 <= n -> len u = n -> (r_eof s = false \/ n = 0) ->
+  source_wf s -> eof_ok s -> 0 <= n -> len u = n ->
   let '(s', rc, cnt, data') := source_read junk s n (Some u) false NoFault in
   cnt = None /\
   (n <= len (source_rest s) ->
@@ -461,7 +484,7 @@ Theorem source_read_exact junk s n u :
      r_in s' = r_in s + n /\ r_out s' = r_out s + n) /\
   (len (source_rest s) < n -> rc = E_FATAL /\ r_in s' = r_in s /\ r_out s' = r_out s).
 Proof.
-  intros Hw He Hn Hu Hg.
+  intros Hw He Hn Hu.
   pose proof (source_read_data junk s n u false Hw He Hn Hu) as H. simpl in H. unfold next_k in H.
   destruct (source_read junk s n (Some u) false NoFault) as [[[s' rc] cnt] data'].
   destruct H as (Hdata & _ & _ & _ & _ & _ & Hok & Hbad).
@@ -470,30 +493,66 @@ Proof.
   - destruct (Z_le_gt_dec n (len (source_rest s))).
     + replace (Z.min n (len (source_rest s))) with n in * by lia.
       destruct (Hok (or_intror eq_refl)) as (_ & -> & _). reflexivity.
-    + destruct Hg as [Hg|Hg]; [|lia].
-      assert (Hm : Z.min n (len (source_rest s)) < n) by lia.
-      destruct (Hbad (conj eq_refl (conj Hm Hg))) as (_ & -> & _). reflexivity.
+    + assert (Hm : Z.min n (len (source_rest s)) < n) by lia.
+      destruct (Hbad (conj eq_refl Hm)) as (_ & -> & _). reflexivity.
   - split.
     + intros Hle. replace (Z.min n (len (source_rest s))) with n in * by lia.
       destruct (Hok (or_intror eq_refl)) as (Hrc & _ & Hrest & Hi & Ho).
       rewrite Hdata. rewrite (drop_all n u) by lia. rewrite app_nil_r. auto.
-    + intros Hlt. destruct Hg as [Hg|Hg]; [|lia].
+    + intros Hlt.
       assert (Hm : Z.min n (len (source_rest s)) < n) by lia.
-      destruct (Hbad (conj eq_refl (conj Hm Hg))) as (Hrc & _ & Hi & Ho). auto.
+      destruct (Hbad (conj eq_refl Hm)) as (Hrc & _ & Hi & Ho). auto.
 Qed.
 
-(* the full-strength statement (header: "Returns an error if bytes_out is NULL and less than
-   bytes_avail are read") is FALSE of the code: once an earlier call has registered the end, an
-   exact read of n > 0 bytes returns success although nothing was read.  Witness: a 2-byte array,
-   read (4, &count) -> 2, read (4, &count) -> 0 registers the end, read (1, NULL) -> 0 (success). *)
+(* The same holds with data == NULL on an array source (source_skip_buffer).  What the repair
+   103c295 changed: once the end is registered, the exact request is refused and the source is left
+   exactly as it is. *)
+Theorem source_read_exact_at_eof junk s n data flt :
+  r_eof s = true -> 0 < n ->
+  source_read junk s n data false flt = (s, E_FATAL, None, data).
+Proof.
+  intros Heof Hn. unfold source_read. rewrite Heof, orb_true_r.
+  replace (0 <? n) with true by (symmetry; apply Z.ltb_lt; assumption). reflexivity.
+Qed.
+
+(* Regression guard.  `source_read_old` is sc_io_source_read with the early return as it was before
+   103c295 (`if (bytes_avail == 0 || is_eof) { if (bytes_out != NULL) *bytes_out = 0; return NONE; }`).
+   It violates the statement above: once an earlier call has registered the end, an exact read of
+   n > 0 bytes returns success although nothing was read.  Witness: a 2-byte array,
+   read (4, &count) -> 2, read (4, &count) -> 0 registers the end, read (1, NULL) -> success, while
+   the repaired function returns FATAL in the same state.  So reverting the repair is refuted. *)
+Definition source_read_old (junk : Z -> Z) (s : source) (n : Z) (data : option (list Z)) (wc : bool) (flt : fault)
+  : source * Z * option Z * option (list Z) :=
+  if (n =? 0) || r_eof s then (s, E_NONE, if wc then Some 0 else None, data)
+  else source_read junk s n data wc flt.
+
+(* the two functions differ in exactly that case *)
+Lemma source_read_old_differs junk s n data wc flt :
+  source_read_old junk s n data wc flt <> source_read junk s n data wc flt <->
+  (r_eof s = true /\ wc = false /\ 0 < n).
+Proof.
+  unfold source_read_old, source_read.
+  destruct (n =? 0) eqn:Hn0; simpl orb.
+  - apply Z.eqb_eq in Hn0. subst n. simpl. split; [|lia]. intros H. exfalso. apply H. destruct wc; reflexivity.
+  - apply Z.eqb_neq in Hn0. destruct (r_eof s) eqn:Heof.
+    + destruct wc.
+      * split; [intros H; exfalso; apply H; reflexivity|intros (_ & H & _); discriminate].
+      * destruct (0 <? n) eqn:Hp.
+        -- apply Z.ltb_lt in Hp. split; [auto|]. intros _. unfold E_NONE, E_FATAL. congruence.
+        -- apply Z.ltb_ge in Hp. split; [intros H; exfalso; apply H; reflexivity|lia].
+    + split; [intros H; exfalso; apply H; reflexivity|intros (H & _); discriminate].
+Qed.
+
 Definition exact_read_witness : source :=
   fst (source_run (fun _ => 0) 238 (source_new_buffer (mkArr 1 2 false [7; 8]))
          [RRead 4 true true NoFault; RRead 4 true true NoFault]).
 
-Theorem source_read_exact_after_eof_refuted :
+Theorem source_read_exact_old_refuted :
   exists s n u, source_wf s /\ eof_ok s /\ 0 < n /\ len u = n /\ len (source_rest s) < n /\
-    let '(_, rc, _, data') := source_read (fun _ => 0) s n (Some u) false NoFault in
-    rc = E_NONE /\ data' = Some u.
+    (let '(_, rc, _, data') := source_read_old (fun _ => 0) s n (Some u) false NoFault in
+     rc = E_NONE /\ data' = Some u) /\
+    (let '(s', rc, _, data') := source_read (fun _ => 0) s n (Some u) false NoFault in
+     rc = E_FATAL /\ data' = Some u /\ s' = s).
 Proof.
   exists exact_read_witness, 1, [238].
   unfold source_wf, eof_ok, mirror_wf. vm_compute.
@@ -546,7 +605,7 @@ Lemma source_read_is_file junk s n data wc flt :
 Proof.
   unfold is_file. intros Hf. unfold source_read.
   destruct (r_dev s) as [a|nm f pos] eqn:Hd; [contradiction|].
-  destruct ((n =? 0) || r_eof s); [simpl; rewrite Hd; exact I|].
+  destruct ((n =? 0) || r_eof s); [destruct wc; [|destruct (0 <? n)]; simpl; rewrite Hd; exact I|].
   destruct data as [u|].
   - destruct flt as [|k0 e0 r0|]; cbv beta iota zeta;
       repeat match goal with
@@ -585,7 +644,7 @@ Proof.
       unfold source_step, user_buf.
       destruct (source_read junk s n None wc NoFault) as [[[s' rc] cnt] data'].
       simpl in Hk.
-      destruct H as (_ & Hw' & He' & Hst & Hmir & _ & _ & _ & Hpos & _ & Ho).
+      destruct H as (_ & Hw' & He' & Hst & Hmir & _ & _ & _ & Hpos & _ & Ho & _).
       split; [assumption|]. split; [assumption|]. split; [assumption|].
       split; [destruct (r_eof s); lia|].
       simpl. rewrite app_nil_r. unfold mirror_content in *. rewrite Hmir. assumption.
@@ -596,7 +655,7 @@ Proof.
     pose proof (source_read_is_file junk s (align_fill (r_out s) al) None false NoFault Hf0) as Hk.
     destruct (source_read junk s (align_fill (r_out s) al) None false NoFault) as [[[s' rc] cnt] data'].
     simpl in Hk.
-    destruct H as (_ & Hw' & He' & Hst & Hmir & _ & _ & _ & Hpos & _ & Ho).
+    destruct H as (_ & Hw' & He' & Hst & Hmir & _ & _ & _ & Hpos & _ & Ho & _).
     split; [assumption|]. split; [assumption|]. split; [assumption|].
     split; [destruct (r_eof s); lia|].
     simpl. rewrite app_nil_r. unfold mirror_content in *. rewrite Hmir. assumption.
@@ -664,7 +723,7 @@ Lemma source_read_buf_dev junk s a n data wc flt :
   r_dev s' = RBuf a /\ r_mir s' = r_mir s.
 Proof.
   intros Hd. simpl. unfold source_read. rewrite Hd.
-  destruct ((n =? 0) || r_eof s); [simpl; auto|].
+  destruct ((n =? 0) || r_eof s); [destruct wc; [|destruct (0 <? n)]; simpl; auto|].
   destruct (_ =? 0); unfold read_finish; simpl;
     repeat match goal with |- context [if ?c then _ else _] => match type of c with bool => destruct c; simpl end end; auto.
 Qed.
@@ -706,7 +765,7 @@ Proof.
       destruct (Hok (or_intror Hk)) as (-> & -> & _). reflexivity.
     + apply Z.leb_gt in E.
       assert (Hk : Z.min n (len m) < n) by lia.
-      destruct (Hbad (conj eq_refl (conj Hk eq_refl))) as (-> & -> & _). reflexivity.
+      destruct (Hbad (conj eq_refl Hk)) as (-> & -> & _). reflexivity.
 Qed.
 
 (* ---- sc_io_file_save / sc_io_file_load ------------------------------------------------------------ *)
